@@ -40,7 +40,13 @@ func main() {
 	if c, ok := d.(interface{ Close() }); ok {
 		defer c.Close()
 	}
+	// the operation about to run is announced on stderr (unbuffered), so that a crash of the
+	// process (a fatal error cannot be recovered) can be attributed to it
+	announce := os.Getenv("VERIF_ANNOUNCE") != ""
 	execLine := func(line string) {
+		if announce {
+			fmt.Fprintf(os.Stderr, "@op\t%s\n", line)
+		}
 		args, err := wire.Fields(line)
 		res := ""
 		if err != nil {
